@@ -3,6 +3,10 @@
 import json, sys
 props = {json.loads(l)['id']: json.loads(l) for l in open('/verif/properties.jsonl')}
 ids = sys.argv[1:]
+suf = ''
+if ids and ids[0].startswith('--suffix='):
+    suf = ids[0].split('=',1)[1]; ids = ids[1:]
+import os
 print("""You are working on scratch git worktrees of the goloop repository (icon-project/goloop: ICON 2.0 blockchain node in Go). There is no network. In every shell call first run: export GOFLAGS=-mod=mod GOPROXY=off GOSUMDB=off GOTOOLCHAIN=local
 
 For EACH property below you have its own worktree. In that worktree produce a small source change (a seeded defect) in non-test Go files that makes the property FALSE while:
@@ -15,6 +19,9 @@ Rules: work only inside the given worktrees and their _out directories. Do not r
 """)
 for i in ids:
     p = props[i]
-    print("=== Property %s  (worktree /tmp/wt_%s, output /tmp/wt_%s_out/) ===" % (i, i, i))
+    print("=== Property %s  (worktree /tmp/wt_%s%s, output /tmp/wt_%s%s_out/) ===" % (i, i, suf, i, suf))
+    mp = '/verif/seeded/%s/meta.json' % i
+    if suf and os.path.exists(mp):
+        print("NOTE: someone else already seeded this one for this property - choose a DIFFERENT function / aspect of the property: " + json.load(open(mp))['change'])
     print(json.dumps({k: p[k] for k in p if k in ('id', 'title', 'statement', 'anchors')}, indent=1))
     print()
